@@ -40,6 +40,11 @@ C07_RUN = {"harness": "hhttp7", "driver": "httpdrv", "fields": ["render", "err",
 ENGINE_RUN = {"harness": "hhttpe", "driver": "httpdrv", "fields": ["handled", "closed", "onclose"],
               "quick": {"n": 12, "shards": 3, "timeout": 600}, "thorough": {"n": 90, "shards": 8, "timeout": 1800}}
 
+# BodyReader (nbhttp/body.go) against Model/HttpBody.lean: programs of append / Read / Close / RawBodyBuffers / pool
+# release-and-reuse with a tracking allocator whose capacities are scripted; whole result lines are compared
+BODY_RUN = {"harness": "hbody", "driver": "httpdrv", "fields": None, "corpus": "httpbody",
+            "quick": {"n": 400, "shards": 4}, "thorough": {"n": 6000, "shards": 16}}
+
 PROPS = {
     "C07": {
         "manifest": {
@@ -57,9 +62,9 @@ PROPS = {
                     "neighbours of the agreed domain are classified and counted, not judged",
             "technique": "Lean 4 proof (compositional, per grammar production, on the byte-at-a-time spec; lifted to the Go-shaped loop in "
                          "any segmentation by the C06 refinement) + three-way differential correspondence"},
-        "lean": ["NbioVerif.Properties.C07", "NbioVerif.Lemmas.HttpTables"], "drivers": ["httpdrv"], "harness": ["hhttp", "hhttp7"],
+        "lean": ["NbioVerif.Properties.C07", "NbioVerif.Lemmas.HttpTables"], "drivers": ["httpdrv"], "harness": ["hhttp", "hhttp7", "hbody"],
         "facts": [http_tables],
-        "runs": [C07_RUN],
+        "runs": [C07_RUN, BODY_RUN],
         "oracles": ["c07-"],
         "rule": "case = 1..3 pipelined messages drawn from the Msg grammar (or one neighbour of the agreed domain) + a segmentation; distinct "
                 "by hash of (role, method/version, header-count class, framing headers and their spellings, framing kind, chunk count and "
@@ -92,10 +97,10 @@ PROPS = {
                     "<= max(ReadLimit, one read); differential correspondence plus panic/bound/after-error oracles on arbitrary and mutated bytes",
             "note": "model fidelity sampled; panics observed through the parser's recover log line; engine glue after an error modelled as CloseAndClean",
             "technique": "Lean 4 proof (invariants by induction over the input) + differential correspondence"},
-        "lean": ["NbioVerif.Properties.C08", "NbioVerif.Lemmas.HttpTables"], "drivers": ["httpdrv"], "harness": ["hhttp", "hhttpe"],
+        "lean": ["NbioVerif.Properties.C08", "NbioVerif.Lemmas.HttpTables"], "drivers": ["httpdrv"], "harness": ["hhttp", "hhttpe", "hbody"],
         "facts": [http_tables],
         "cs": HTTP_CS,
-        "runs": [HTTP_RUN, ENGINE_RUN],
+        "runs": [HTTP_RUN, ENGINE_RUN, BODY_RUN],
         "oracles": ["c08-"],
         "rule": "same stream as C06 (random bytes, grammar messages and six+ mutation operators, limits drawn around the sizes); "
                 "non-trivial iff bytes were retained across calls or an error was returned",
